@@ -31,7 +31,7 @@ VARIABLES
   h,       \* best block height (honest nodes in lockstep)
   role,    \* "none" | "final" | "fwd"
   upMode,  \* upstream peer A: "honest" (answers at once) | "silent" (never answers, times out on chain)
-  dnMode,  \* downstream peer C: "offchain" | "silent" | "early" | "onchain"
+  dnMode,  \* downstream peer C: "offchain" | "silent" | "early" | "dust" | "onchain" | "cell"
   eu, ed, d,
   dl,      \* advertised claim deadline (0: nothing shown)
   up,      \* A's HTLC at B: "none" | "offered" | "held" | "fulfilled" | "failed"
@@ -73,8 +73,18 @@ Max(a, b) == IF a >= b THEN a ELSE b
 MayForward(hh, Eu, Ed, dd) == Eu - Ed >= Max(dd, MIND) /\ Ed > hh + LGP
 
 \* upstream fail-back of a forwarded HTLC: the downstream HTLC was failed by C off chain, or it can
-\* no longer be claimed on chain and that is buried ARD deep
-MayFailUp == dn = "failed" \/ (dn = "gone" /\ h >= dnH + ARD - 1)
+\* no longer be claimed on chain and that is buried ARD deep ...
+MayFailUpResolved == dn = "failed" \/ (dn = "gone" /\ h >= dnH + ARD - 1)
+\* ... or (the trade-off documented in ChannelMonitorImpl::block_confirmed: "Fail back HTLCs on backwards
+\* channels if they expire within LATENCY_GRACE_PERIOD_BLOCKS blocks and the channel is closed (i.e. we're
+\* at a point where no further off-chain updates will be accepted).  If we haven't seen the preimage for an
+\* HTLC by the time the previous hop's timeout expires, we've lost that HTLC, so we might as well fail it
+\* back instead of having our counterparty force-close the inbound channel"): B has given up the downstream
+\* channel (its commitment transaction reached the broadcaster), does not know the preimage, the downstream
+\* HTLC is still not resolved-and-buried, and the upstream HTLC is within LGP blocks of its expiry.  Not one
+\* block earlier: until then the burial rule stands.
+MayFailUpEarly == cD # "open" /\ ~pre /\ h + LGP >= eu
+MayFailUp == MayFailUpResolved \/ MayFailUpEarly
 
 \* the upstream HTLC is settled for B: A took the fulfil / fail, or B's HTLC-success confirmed
 Settled == up = "failed" \/ (up = "fulfilled" /\ upMode = "honest") \/ suC >= 0
@@ -207,14 +217,25 @@ EndRun(aSent, cPaid, abOpen) ==
   /\ UNCHANGED <<h, role, upMode, dnMode, eu, ed, d, dl, up, upH, pre, preLate, dn, dnH, xH, cD, cDb, cDc, toB,
                  cU, cUb, cUc, suB, suC, lost>>
 
-\* The next block.  cf \subseteq {"commitD","timeoutD","claimD","commitU","successU","timeoutU"} is what it confirms.
+\* B was stopped and started again from what it had persisted (ChannelManager + ChannelMonitors written at
+\* this height): nothing observable changes; in particular every rule above holds across it (what the
+\* restarted node does is judged by the same guards: FailUp only when MayFailUp)
+Restart ==
+  /\ role = "fwd"
+  /\ UNCHANGED vars
+
+\* The next block.  cf \subseteq {"commitD","timeoutD","claimD","commitU","successU","timeoutU","noHtlcD"} is what
+\* it confirms ("noHtlcD" with "commitD": B's confirmed commitment transaction has no output for the HTLC --
+\* the HTLC never entered B's own commitment (C went silent right after B's update_add_htlc +
+\* commitment_signed, it exists only in the commitment B signed for C) or it is below the dust limit: the
+\* confirmation of that commitment itself is what makes the HTLC unclaimable for C).
 Block(cf) ==
   /\ h' = h + 1
   /\ cD' = IF "commitD" \in cf THEN "conf" ELSE cD
   /\ cDc' = IF "commitD" \in cf THEN h + 1 ELSE cDc
   /\ cU' = IF "commitU" \in cf THEN "conf" ELSE cU
   /\ cUc' = IF "commitU" \in cf THEN h + 1 ELSE cUc
-  /\ LET gone == "timeoutD" \in cf \/ ("commitD" \in cf /\ dnMode = "early") IN
+  /\ LET gone == "timeoutD" \in cf \/ ("commitD" \in cf /\ "noHtlcD" \in cf) IN
      /\ dn' = IF dn # "pending" THEN dn ELSE IF "claimD" \in cf THEN "claimed" ELSE IF gone THEN "gone" ELSE dn
      /\ dnH' = IF dn = "pending" /\ ("claimD" \in cf \/ gone) THEN h + 1 ELSE dnH
   /\ pre' = (pre \/ (dn = "pending" /\ "claimD" \in cf))
@@ -248,12 +269,14 @@ WinInboundRace == ~lost /\ (NeedsChain => h < eu)
 
 \* a bad downstream peer costs at most that channel: never paid downstream and failed upstream, the
 \* upstream HTLC is resolved while the upstream peer still has no reason to close (it closes LGP
-\* after expiry by its own clock and may be up to LGP blocks ahead of us), and we never close the
-\* upstream channel ourselves when that peer is responsive
+\* after expiry by its own clock and may be up to LGP blocks ahead of us: the resolution is on the
+\* wire no later than at height eu - LGP, which is where the code's last resort -- the early fail-back
+\* of an HTLC whose downstream close is still unresolved, MayFailUpEarly -- acts), and we never close
+\* the upstream channel ourselves when that peer is responsive
 BoundedLoss ==
   /\ viol # "BoundedLoss"
   /\ ~(up = "failed" /\ dn \in {"fulfilled", "claimed"})
-  /\ (role = "fwd" /\ upMode = "honest" /\ up = "held") => h + LGP < eu
+  /\ (role = "fwd" /\ upMode = "honest" /\ up = "held") => h + LGP <= eu
   /\ (upMode = "honest") => cU = "open"
 
 FailBackAfterBurial == viol # "FailBackAfterBurial"
